@@ -139,6 +139,21 @@ def build_source(wspec):
   x = inp
   for i, l in enumerate(wspec["layers"]):
     if l["t"] in FOLDED:
+      if wspec.get("skip") and i == 0:
+        # pre-activation skip: the conv output feeds its batch-norm AND an
+        # Add; such a conv has two consumers and must not be folded
+        if l["t"] == "QConv2DBatchnorm":
+          c = L.Conv2D(l["filters"], l["kernel"], padding="same",
+                       use_bias=l["use_bias"], name="c%d" % i)(x)
+        else:
+          c = L.DepthwiseConv2D(l["kernel"], padding="same",
+                                use_bias=l["use_bias"], name="c%d" % i)(x)
+        y = L.BatchNormalization(center=l.get("center", True),
+                                 scale=l.get("scale", True),
+                                 name="bn%d" % i)(c)
+        y = L.Activation("relu", name="act%d" % i)(y)
+        x = L.Add(name="skip%d" % i)([y, c])
+        continue
       x = block(x, l, i)
       if wspec.get("relu_between"):
         x = L.Activation("relu", name="act%d" % i)(x)
@@ -650,6 +665,7 @@ def generate(rng):
     world["convert"] = True
     world["relu_between"] = rng.chance(0.5)
     world["branch"] = rng.chance(0.4)
+    world["skip"] = rng.chance(0.3)
     if rng.chance(0.5):
       world["convert_folding_mode"] = rng.pick(["ema_stats_folding",
                                                 "batch_stats_folding"])
@@ -726,6 +742,16 @@ def directed():
                 t, mode, delay, "q" if quant else "f", ub, center, scale),
                         "seed": 1, "world": {"layers": [l], "wseed": 100 + i},
                         "ops": ops})
+  for t in FOLDED:
+    l = {"t": t, "kernel": 2, "strides": 1, "padding": "same",
+         "use_bias": True, "center": True, "scale": True}
+    if t == "QConv2DBatchnorm":
+      l["filters"] = 2
+    out.append({"label": "directed:convert:%s:preactivation-skip" % t,
+                "seed": 1, "world": {"layers": [l, dict(l)], "wseed": 8,
+                                     "convert": True, "relu_between": True,
+                                     "skip": True},
+                "ops": [{"k": "INFER", "xseed": 1}]})
   for branch in (False, True):
     for t in FOLDED:
       l = {"t": t, "kernel": 2, "strides": 1, "padding": "same",
@@ -744,7 +770,7 @@ def directed():
 
 def simplify(scn):
   w = scn["world"]
-  for key in ("convert", "branch", "relu_between"):
+  for key in ("convert", "branch", "relu_between", "skip"):
     if w.get(key):
       c = json.loads(json.dumps(scn))
       del c["world"][key]
@@ -774,4 +800,4 @@ def bucket(scn):
             l.get("depth_multiplier"),
             bool(l.get("kq") or l.get("dq")), bool(l.get("bq")))
            for l in w["layers"]], bool(w.get("convert")),
-          bool(w.get("branch"))]
+          bool(w.get("branch")), bool(w.get("skip"))]
